@@ -89,7 +89,7 @@ type failure struct {
 	Sig    string `json:"signature"`
 	Coarse string `json:"symptom_class,omitempty"` // wrong-answer | panic | error
 	// Raw is the signature the failure has when it does not qualify for a family.
-	Raw string `json:"unclassified_signature,omitempty"`
+	Raw    string `json:"unclassified_signature,omitempty"`
 	What   string `json:"what"`
 	Step   int    `json:"step"`
 	Got    string `json:"got,omitempty"`
